@@ -15,3 +15,7 @@ open PubModel.C01
 #print axioms gen_side_chunk_pos
 #print axioms gen_tunnel_read_checked
 #print axioms sideWrite_gen
+#print axioms upstream_legacy_prefix
+#print axioms downstream_legacy_prefix
+#print axioms downstream_side_prefix
+#print axioms pipeReads_sizes
